@@ -340,7 +340,7 @@ def check(ctx, replay=None):
             ctx.cov["programs_compared_across_cpu_targets"] = len(p64)
             diff = sorted(k for k in p64 if p64[k] != p32.get(k))
             if diff:
-                progviol.append(("the same policy compiles to different programs on linux/amd64 and linux/386 (both executed on this host): %s" % diff[:4], {"differs": diff, "amd64": {k: p64[k] for k in diff[:4]}, "386": {k: p32.get(k) for k in diff[:4]}}))
+                progviol.append(("the same policy, name or value gives different programs or text forms on linux/amd64 and linux/386 (both executed on this host): %s" % diff[:4], {"differs": diff, "amd64": {k: p64[k] for k in diff[:4]}, "386": {k: p32.get(k) for k in diff[:4]}}))
     # ... and the file set of every non-Linux target, executed on this host (same CPU, so the default architecture is amd64's there too)
     rl = ctx.run([os.path.join(bindir, "stubsim"), "-programs"], timeout=120)
     if rl[0] == 0:
@@ -354,7 +354,7 @@ def check(ctx, replay=None):
             ncmp += len(pp)
             diff = sorted(k for k in pp if pp[k] != plinux.get(k))
             if diff:
-                progviol.append(("the same policy compiles to a different program with the files of %s than with the files of linux (both executed on this host): %s" % (t, diff[:4]),
+                progviol.append(("the same policy, name or value gives a different program or text form with the files of %s than with the files of linux (both executed on this host): %s" % (t, diff[:4]),
                                  {"differs": diff, "linux": {k: plinux.get(k) for k in diff[:4]}, t: {k: pp[k] for k in diff[:4]}}))
         ctx.cov["evaluations"] += ncmp
         ctx.cov["programs_compared_across_file_sets"] = ncmp
